@@ -1780,3 +1780,69 @@ def replay(rep):  # noqa: F811
         print('replay: %s' % ('violation reproduced on the real code' if bad else 'not reproduced'))
         return 1 if bad else 0
     return _rp24(rep)
+
+
+# ---- scalewords (C10): every spelling of a temperature scale reads as that scale (witness search for the lexer's word arm) ----
+_SCALE_WORDS = [['degC', '°C', 'celsius', '℃'], ['degF', '°F', 'fahrenheit', '℉'], ['degRé', '°Ré', 'degRe', '°Re', 'réaumur', 'reaumur'],
+                ['degRø', '°Rø', 'degRo', '°Ro', 'rømer', 'romer'], ['degDe', '°De', 'delisle'], ['degN', '°N', 'degnewton']]
+
+
+def _scalewords_witness():
+    if build_core() != 0:
+        return None
+    seen = {}
+    for group in _SCALE_WORDS:
+        ref = None
+        for w in group:
+            for q in ('10 %s' % w, '300 kelvin -> %s' % w):
+                (ln, text, raw) = run_queries([q])[0]
+                first = (text.splitlines() or [''])[0]
+                key = q.replace(w, '<scale>')
+                if ref is None or key not in ref:
+                    ref = ref or {}
+                    ref[key] = (w, first)
+                elif ref[key][1] != first:
+                    return {'replayer': 'scalewords', 'input': {'query': q, 'expected': 'the same reply as with `%s`: %s' % (ref[key][0], ref[key][1])},
+                            'output': text, 'why': '`%s` gives %r but `%s` gives %r: two spellings of one scale disagree' % (q, first, ref[key][0], ref[key][1]),
+                            'cmd': '%s %r' % (QUERY_BIN, q)}
+        # and different scales give different readings of 10
+        k = ref.get('10 <scale>')
+        if k:
+            if k[1] in seen and not k[1].startswith('ERR'):
+                return {'replayer': 'scalewords', 'input': {'query': '10 %s' % k[0], 'expected': 'a reading different from `10 %s`' % seen[k[1]]},
+                        'output': k[1], 'why': 'two different scales give the same reading of 10', 'cmd': '%s %r' % (QUERY_BIN, '10 %s' % k[0])}
+            seen[k[1]] = k[0]
+    return None
+
+
+_sf25 = search_family
+
+
+def search_family(fam, prop):  # noqa: F811
+    if fam == 'scalewords':
+        return _scalewords_witness()
+    return _sf25(fam, prop)
+
+
+_fw26 = find_witness
+
+
+def find_witness(o, rep):  # noqa: F811
+    if (o.get('slot') or '') == 'TokenIterator::next::word':
+        w = _scalewords_witness()
+        if w:
+            return w
+    return _fw26(o, rep)
+
+
+_rp26 = replay
+
+
+def replay(rep):  # noqa: F811
+    w = rep.get('replay') or {}
+    if w.get('replayer') == 'scalewords':
+        w2 = _scalewords_witness()
+        print(w2['why'] if w2 else 'all spellings agree')
+        print('replay: %s' % ('violation reproduced on the real code' if w2 else 'not reproduced'))
+        return 1 if w2 else 0
+    return _rp26(rep)
